@@ -156,7 +156,7 @@ def crash_worker(job: dict) -> dict:
     return out
 
 
-def _model(ctx: Ctx, n: int, k: int, mode: str, reorder: bool, resume_permutes: bool) -> dict:
+def _model(ctx: Ctx, n: int, k: int, mode: str, reorder: bool, resume_permutes: bool, tables: str = "pickled") -> dict:
     cfg = f"""SPECIFICATION Spec
 CONSTANTS
   N = {n}
@@ -167,17 +167,20 @@ CONSTANTS
   ResumePermutes = {"TRUE" if resume_permutes else "FALSE"}
   AllowCrash = TRUE
   UpdateAfterRebuild = TRUE
+  Dark = 1
+  TablesOnResume = "{tables}"
 INVARIANT BathShape
 INVARIANT CentreFollowsSweep
 INVARIANT OneFillPerStep
 INVARIANT DriveWritten
+INVARIANT TablesMatchSites
 INVARIANT ReturnedComplete
 INVARIANT ReturnedInRegisterOrder
 PROPERTY StepsInOrder
 PROPERTY ResumeRestores
 PROPERTY Terminates
 """
-    res = run_tlc("MCMPSRun", None, workdir=ctx.work, name=f"mc_{mode}_{n}_{k}_{int(reorder)}", cfg_text=cfg, workers=4, coverage=True)
+    res = run_tlc("MCMPSRun", None, workdir=ctx.work, name=f"mc_{mode}_{n}_{k}_{int(reorder)}_{tables}", cfg_text=cfg, workers=4, coverage=(tables == "pickled"))
     ctx.add_tlc(res)
     return res
 
@@ -275,6 +278,10 @@ def run(ctx: Ctx) -> None:
                 unexpected = [a for a in m["coverage_zero"] if not (a.startswith("Dmrg") and mode == "tdvp") and not (a.startswith("Tdvp") and mode == "dmrg")]
                 if unexpected:
                     ctx.notes.append(f"N={n} K={k} {mode}: never taken {unexpected}")
+    # self-test of TablesMatchSites: a resume that rebuilds the drive tables without removing the dark atoms' columns must be rejected
+    st = _model(ctx, 3, 2, "tdvp", True, rp, tables="rebuilt-unfiltered")
+    if not any(v[1] == "TablesMatchSites" for v in st["violated"]):
+        raise MachineryError("mechanism variant 'drive tables rebuilt unfiltered on resume' not rejected by TablesMatchSites (vacuous requirement)")
     # ---- noisy: distribution over seeds (thorough)
     if not ctx.quick and "noisy3" in base:
         nseeds = 40
